@@ -160,7 +160,12 @@ func genChunks(t *rapid.T, label string, n int) []int {
 		}
 		return out
 	default:
-		return rapid.SliceOfN(rapid.OneOf(rapid.IntRange(1, 16), rapid.IntRange(1, 300), rapid.IntRange(1, 5000)), 0, 60).Draw(t, label)
+		ch := rapid.SliceOfN(rapid.OneOf(rapid.IntRange(1, 16), rapid.IntRange(1, 300), rapid.IntRange(1, 5000)), 0, 60).Draw(t, label)
+		// occasionally a Read that returns (0, nil): legal for an io.Reader
+		if len(ch) > 0 && rapid.IntRange(0, 4).Draw(t, label+"_zero") == 0 {
+			ch[rapid.IntRange(0, len(ch)-1).Draw(t, label+"_zeropos")] = -1
+		}
+		return ch
 	}
 }
 
